@@ -150,6 +150,12 @@ let check_pline ?(quiet_stats=false) (pl:pline) : unit =
            | None -> ())
         end
       | _ -> mismatch "succ_parse" s) pl.succ;
+  (* development aid: boolean instances of the T_gen interface statements (Proofs/GenInterface.v) *)
+  if valid && fresh && Sys.getenv_opt "VERIF_TEST_INTERFACES" = Some "1" then begin
+    let r = int_of_n (test_interfaces b) in
+    bump "interface_tests";
+    if r <> 0 then mismatch "interface_stmt" (Printf.sprintf "%s failing statements mask=%d" ctx r)
+  end;
   if fresh && not quiet_stats then sample "position" pl.enc
 
 (* mirror stream *)
